@@ -38,10 +38,13 @@ StepsCm == {50, 30, 7}
 \* relative velocity (-2, -3, 10 - 4) has the integer length 7 (a Pythagorean quadruple)
 Flows == {<<0, 0, 0>>, <<2, 3, 4>>}
 
-VARIABLES mix, shape, x, y, z, step, flow
-vars == <<mix, shape, x, y, z, step, flow>>
+VARIABLES mix, shape, x, y, z, step, flow,
+          prior      \* "none": the beam is where it was built; "moved": it was built and evaluated one metre to the side, where the
+                     \* plasma has three times the densities, and then moved here (the density depends on where the beam is now)
+vars == <<mix, shape, x, y, z, step, flow, prior>>
 Init == /\ mix \in 1..Len(Mixes) /\ shape \in 1..Len(Shapes) /\ x \in Xs /\ y \in Ys /\ z \in Zs /\ step \in StepsCm
         /\ flow \in Flows /\ (flow # <<0, 0, 0>> => step = 50 /\ y = 0)         \* flows explored on the commensurate lattice
+        /\ prior \in {"none", "moved"} /\ (prior = "moved" => flow = <<0, 0, 0>> /\ step = 50 /\ y = 0)
 Next == UNCHANGED vars
 Spec == Init /\ [][Next]_vars
 
@@ -88,6 +91,6 @@ NoStoppingConservesFlux == (mix = 4) => S = 0
 DirX == x * z * z * Sh[2] * Sh[2]          \* e_x numerator over SX2 (times D ...), e_z = z
 Streamline == z > 0 => DirX * 1 = (x * z * Sh[2] * Sh[2]) * z
 
-EmitCase == PrintT(ToJson([mix |-> M, shape |-> Sh, D |-> D, step_cm |-> step, flow |-> flow, efac |-> EFac, nbeam |-> NBeam, on_node |-> OnNode, x |-> x, y |-> y, z |-> z, class |-> Class, S |-> S, z2n |-> Z2N, neq |-> NEq,
+EmitCase == PrintT(ToJson([prior |-> prior, mix |-> M, shape |-> Sh, D |-> D, step_cm |-> step, flow |-> flow, efac |-> EFac, nbeam |-> NBeam, on_node |-> OnNode, x |-> x, y |-> y, z |-> z, class |-> Class, S |-> S, z2n |-> Z2N, neq |-> NEq,
                            sx2 |-> SX2, sy2 |-> SY2, dir |-> << <<x * z * z * Sh[2] * Sh[2], SX2>>, <<y * z * z * Sh[3] * Sh[3], SY2>>, <<z, 1>> >>]))
 =============================================================================
